@@ -98,10 +98,12 @@ class C16(Prop):
         "restore_mapping_all_found", "restore_mapping_all_found_alloc", "hash_sites_as_modelled", "error_messages_as_in_source",
         "save_structure_bytes_as_in_source", "save_atomic_partial", "elem_dispatch_spec", "key_dispatch_spec",
         "value_dispatch_spec", "svalue_dispatch_spec", "restore_dispatch_as_in_source",
-        "nesting_and_dry_run_sites_as_modelled", "roundtrip_float_keys", "keys_distinct_with_float_keys")]
+        "nesting_and_dry_run_sites_as_modelled", "roundtrip_float_keys", "keys_distinct_with_float_keys",
+        "restore_ignores_stale_state", "save_ignores_stale_state", "reset_sites_as_modelled")]
     witness_theorems = ["NV.C16.Witness." + t for t in (
         "float_keys_collapse", "roundtripFloatKeys_Full_false", "cr_round_trips", "stray_byte_in_array_ok",
-        "inf_is_written_as_number", "same_name_saved", "same_name_variables", "old_mask_loses_the_key")]
+        "inf_is_written_as_number", "same_name_saved", "same_name_variables", "old_mask_loses_the_key",
+        "stale_counter_without_reset", "stale_table_gives_wrong_value", "stale_counter_refuses_save")]
     consts = [("maxSaveSvalueDepth", "MAX_SAVE_SVALUE_DEPTH"), ("nameStatic", "NAME_STATIC"),
               ("saveExtLen", "sizeof(SAVE_EXTENSION) - 1"), ("saveExt0", "SAVE_EXTENSION[0]"), ("saveExt1", "SAVE_EXTENSION[1]"),
               ("fillPercent", "FILL_PERCENT"), ("maxTableSize", "MAX_TABLE_SIZE"), ("mapHashTableSize", "MAP_HASH_TABLE_SIZE")]
@@ -251,7 +253,9 @@ class C16(Prop):
         # hash-table sites of restore_mapping / growMap / the lookup, as modelled in NV/C16/Hash.lean
         rm = section("static int restore_mapping (char **str", "static int restore_class", "restore_mapping")
         maph = open(os.path.join(E.REPO, "lib/lpc/mapping.h")).read()
-        ws = lambda t: re.sub(r"\s+", " ", t)
+        # statements are compared after dropping comments and collapsing white space: a reworded comment or a re-indented
+        # line is not a change of the code
+        ws = lambda t: re.sub(r"\s+", " ", re.sub(r"//[^\n]*", " ", re.sub(r"/\*.*?\*/", " ", t, flags=re.S)))
         rmw, mapw = ws(rm), ws(mapc)
         msh = re.search(r"#define\s+MAP_POINTER_HASH\(x\)\s+\(\(intptr_t\)x >> (\d+)\)", maph)
         hash_sites = {
@@ -259,7 +263,7 @@ class C16(Prop):
             "growth branch": ("else if (!(--m->unfilled)) { if (growMap (m)) { a = m->table; if (oi & ++mask) elt2 = a[i |= mask]; "
                               "mask <<= 1; mask--; }") in rmw,
             "link": "(a[i] = elt)->next = elt2;" in rmw,
-            "initial mask": "a = m->table; /* we'll leak */ mask = m->table_size;" in rmw,
+            "initial mask": "a = m->table; mask = m->table_size;" in rmw,
             "growMap split": "if (node_hash (elt) & oldsize) { *eltp = elt->next; if (!(elt->next = *b)) m->unfilled--; *b = elt; elt = *eltp; }" in mapw,
             "growMap limit": "if (newsize > MAX_TABLE_SIZE) return 0;" in mapw,
             "lookup": "i = svalue_to_int (lv) & m->table_size; for (elt = a[i]; elt; elt = elt->next) { if (msameval (elt->values, lv)) return elt; }" in mapw,
@@ -338,9 +342,72 @@ class C16(Prop):
                        "true" if all(nest_sites.values()) else "false", top_args[0] if top_args else "0",
                        ", ".join("%s=%s" % (k, "yes" if v else "NO") for k, v in dry_sites.items()),
                        "true" if all(dry_sites.values()) else "false"))
+        # ---- the file-scope state of the two anchor files (what the linker sees: `nm` on the objects of this build) and
+        # the reset of the shared container counter at the head of every entry point
+        KNOWN_STATE = {
+            "save_svalue_depth": "protocol", "save_svalue_sizes": "protocol", "save_max_depth": "protocol",
+            "sel": "constant cache (strlen (SAVE_EXTENSION), computed once)",
+            "tmp_name": "scratch buffer of save_object (written before it is read in every call)",
+            "hashed_living": "other", "num_living_names": "other", "num_searches": "other", "search_length": "other",
+            "sent_free": "other", "tot_alloc_object": "other", "tot_alloc_object_size": "other", "tot_alloc_sentence": "other",
+            "free_nodes": "other", "mapping_node_blocks": "other", "g_u_m_list": "other", "num_mappings": "other",
+            "total_mapping_nodes": "other", "total_mapping_size": "other"}
+        region = src[src.find("int save_svalue_depth"):src.find("void tell_npc")]
+        state, new_state = [], []
+        for fn in ("object.c.o", "mapping.c.o"):
+            obj = os.path.join(bdir, "lib/lpc/CMakeFiles/lpc.dir", fn)
+            if not os.path.exists(obj):
+                continue
+            for l in E.run(["nm", obj]).stdout.splitlines():
+                t = l.split()
+                if len(t) == 3 and t[1] in "BbDdCc" and not t[2].startswith(("__", ".", "_ZL")) and "asan" not in t[2]:
+                    name = t[2].split(".")[0]
+                    cls = KNOWN_STATE.get(name)
+                    if cls is None:
+                        # a new file-scope variable matters only when the save / restore code itself mentions it
+                        cls = "UNCLASSIFIED" if re.search(r"\b%s\b" % re.escape(name), region) else "other"
+                        if cls == "UNCLASSIFIED":
+                            new_state.append(name)
+                    state.append((fn[:-2], name, cls))
+        if new_state:
+            raise X.TieBroken("site:file-scope-state/" + new_state[0],
+                              "the save / restore code of lib/lpc/object.c uses file-scope variables the model does not know: %s "
+                              "(is each one reset at every entry point? see NV/C16/Globals.lean)" % ", ".join(new_state))
+        def fn_body(start, end):
+            return ws(section(start, end, start))
+        def starts_with_reset(body):
+            # the first statement after the declarations of the function
+            return re.search(r"\{ (?:(?:int|char|svalue_t|size_t) [^;{}]*; )*save_svalue_depth = 0;", body) is not None
+        b_rs = fn_body("int restore_svalue (char *cp, svalue_t * v) {", "int safe_restore_svalue")
+        b_srs = fn_body("int safe_restore_svalue (char *cp, svalue_t * v) {", "static int fgv_recurse")
+        objw = ws(src)
+        size_calls = [m.start() for m in re.finditer(r"svalue_save_size \((?!const)", objw)]
+        inner = objw.find("size_t svalue_save_size (const svalue_t * v)"), objw.find("void save_svalue (svalue_t * v, char **buf)")
+        outer_calls = [i for i in size_calls if not (inner[0] <= i < inner[1])]
+        top_dispatch = [m.start() for m in re.finditer(r"restore_(?:array|mapping|class) \(&cp,", objw)]
+        reset_sites = {
+            "restore_svalue starts with the reset": starts_with_reset(b_rs),
+            "safe_restore_svalue starts with the reset": starts_with_reset(b_srs),
+            "every top-level dispatch to restore_array/mapping/class sits in one of the two": bool(top_dispatch) and all(
+                objw.find("int restore_svalue (char *cp, svalue_t * v) {") < i < objw.find("static int fgv_recurse") for i in top_dispatch),
+            "every outer call of svalue_save_size is preceded by the reset": len(outer_calls) == 2 and all(
+                objw[:i].rstrip().endswith(("save_svalue_depth = 0; theSize =",)) for i in outer_calls),
+        }
+        state_txt = ("/-- file-scope variables of lib/lpc/object.c and lib/lpc/mapping.c (`nm` on the objects of this build) with their\n"
+                     "    role for the save / restore code -/\ndef fileScopeState : List (String × String × String) := [%s]\n"
+                     "/-- %s -/\ndef resetSitesAsModelled : Bool := %s"
+                     % (", ".join('("%s", "%s", "%s")' % x for x in state),
+                        ", ".join("%s=%s" % (k, "yes" if v else "NO") for k, v in reset_sites.items()),
+                        "true" if all(reset_sites.values()) else "false"))
+        broken = [(g, k) for g, d in (("hash-table", hash_sites), ("nesting-limit", nest_sites), ("dry-run", dry_sites),
+                                       ("counter-reset", reset_sites)) for k, v in d.items() if not v]
+        if broken:
+            raise X.TieBroken("site:%s/%s" % broken[0],
+                              "statements of the source that no longer read as the model mirrors them: " +
+                              "; ".join("%s: %s" % b for b in broken))
         lstr = lambda x: '"' + x.replace("\\", "\\\\").replace('"', '\\"') + '"'
         return "\n".join([
-            dispatch, nest_txt,
+            dispatch, nest_txt, state_txt,
             "/-- restore_variable(): `if (rc & ROB_x) error (msg)` chain, in order -/\ndef restoreVariableMessages : List (String × String) := [%s]"
             % ", ".join("(%s, %s)" % (lstr(a), lstr(b)) for a, b in rv_msgs),
             "/-- restore_object_from_buff(): the same chain with the variable name (`%%s`) -/\n"
@@ -608,6 +675,51 @@ class C16(Prop):
             lines.append("rt " + vtxt(v))
         return lines
 
+    # ---- stale shared state: an operation that ends in an LPC error (or `poison`), then every entry point ----------
+    def failing_op(self, rng):
+        """lines of an operation that raises an LPC error in mid-flight and so leaves the shared container counter set"""
+        k = rng.weighted([("poison", 5), ("deep-save", 3), ("deep-save-object", 2), ("array-too-large", 2)])
+        if k == "poison":
+            return ["poison %d" % rng.choice([1, 2, 3, 5, 24, 25, 26, 27, 100, 70000])]
+        if k == "deep-save":
+            return ["use obj", "rt " + vtxt(self.nest(rng.range(26, 28), rng.choice(["a", "m", "mix", "c"])))]
+        if k == "deep-save-object":
+            a = ["i%d" % rng.range(1, 9)] * 5
+            a[rng.below(5)] = vtxt(self.nest(26, rng.choice(["a", "m", "mix"])))
+            return ["use obj", "set " + " ".join(a), "so %d" % rng.below(2)]
+        inner = rng.choice([b"({" + b"1," * 20000 + b"})", b"({({" + b"1," * 20000 + b"}),})"])
+        pre = rng.choice([b"({({1,2,3,}),", b'(["a":({1,}),"b":', b"({({}),({({2,}),}),"])
+        return ["use obj", "rv " + (pre + inner + (b",})" if pre.startswith(b"({") else b",])")).hex()]
+
+    def entry_op(self, rng):
+        """lines of a valid operation through one entry point of the save / restore code; the oracle knows its result"""
+        k = rng.weighted([("rx", 4), ("rt", 3), ("so-ro", 3), ("rox", 4), ("son", 1)])
+        def val():
+            v = self.gen_value(rng, 0, 3)
+            while not self.rx_ok(v) or v[0] not in "amc":
+                v = ("a", [("i", rng.range(1, 99)), self.gen_value(rng, 1, 3)])
+                if not self.rx_ok(v):
+                    v = ("a", [("i", 1), ("a", [("i", 2), ("m", [(("i", 3), ("a", []))])])])
+            return v
+        if k == "rx":
+            v = val()
+            return ["use obj", "rx %s %s" % (vtxt(v), save_text(v).hex())]
+        if k == "rt":
+            return ["use obj", "rt " + vtxt(val())]
+        if k == "so-ro":
+            vals = [val() for _ in range(5)]
+            return ["use obj", "set " + " ".join(vtxt(v) for v in vals), "so %d" % rng.below(2), "set i1 i2 i3 i4 i5",
+                    "ro %d" % rng.below(2)]
+        if k == "son":
+            return ["use obj", "set i1 i2 i3 i4 i5", "son %s 0 %s" % (b"/c16/data/st".hex(), b"c16/data/st.o".hex())]
+        return self.renamed_case(rng, 24 if rng.chance(1, 3) else 7)[1:]
+
+    def stale_lines(self, rng):
+        lines = []
+        for _ in range(rng.range(2, 4)):
+            lines += self.failing_op(rng) + self.entry_op(rng)
+        return lines
+
     def rx_ok(self, v):
         """values whose python-made save text is unambiguous: no floats (text made by python's %g)"""
         t = v[0]
@@ -859,6 +971,39 @@ class C16(Prop):
                             "setm " + vtxt(("a", [("i", 80 + k) for k in range(24)])), "ro 0"])
         mk("crash-points", ["set i1 s61 a[i1,i2] i7 m{i1:i2}", "so 0", "set i2 s62 a[i3] i8 m{}", "cp 0", "cf 0",
                             "ro 0"])
+        # a file-size limit hits the save inside a stdio block (files of < 1, 2 and 3 blocks of 4096 bytes); a rename
+        # that fails for real (the save path is a directory); two objects whose long paths share one temporary
+        big = vtxt(("a", [("s", [0x78] * 3000), ("s", [0x79] * 3000)]))
+        mk("size-limits", ["set i1 s61 a[i1,i2] i7 m{i1:i2}", "cl 0", "so 0", "set i2 s62 a[i3] i8 m{}", "cl 0", "cl 1",
+                           "set i1 s61 %s i7 m{i1:i2}" % big, "cl 0", "so 1", "set i2 %s %s i8 i9" % (big, big), "cl 1",
+                           "use many", "setm " + vtxt(("a", [("s", [0x61 + k] * 400) for k in range(24)])), "cl 0"])
+        mk("rename-fails", ["set i1 i2 i3 i4 i5", "mkd " + b"c16/data/isdir.o".hex(),
+                            "sond %s 0 %s" % (b"/c16/data/isdir".hex(), b"c16/data/isdir.o".hex()),
+                            "mkd " + b"c16/data/isdir.o".hex(),
+                            "sond %s 1 %s" % (b"/c16/data/isdir.c".hex(), b"c16/data/isdir.o".hex()),
+                            "son %s 0 %s" % (b"/c16/data/notdir".hex(), b"c16/data/notdir.o".hex())])
+        shared = "c16/data/" + "/".join(["e" * 60] * 3) + "/" + "p" * 70
+        mk("shared-temporary", ["set i1 i2 i3 i4 i5", "mkd " + ("c16/data/" + "/".join(["e" * 60] * 3)).encode().hex()] +
+           ["son %s %d %s" % (("/" + shared + sfx).encode().hex(), i % 2, (shared + sfx + ".o").encode().hex())
+            for i, sfx in enumerate(["A", "B", "A", "BB", ""])])
+        # every entry point entered with the state an earlier failed operation leaves in the shared counter
+        ok_text = b"({1,({2,([3:({}),]),}),})"
+        ok_val = "a[i1,a[i2,m{i3:a[]}]]"
+        st = []
+        for d in (1, 2, 3, 25, 26, 27, 1000, 70000):
+            st += ["poison %d" % d, "rx %s %s" % (ok_val, ok_text.hex()), "poison %d" % d, "rt " + ok_val,
+                   "poison %d" % d, "set i1 %s %s i4 m{i1:a[i2]}" % (ok_val, ok_val), "so %d" % (d % 2),
+                   "set i9 i9 i9 i9 i9", "poison %d" % d, "ro %d" % (d % 2), "poison %d" % d, "ro %d" % (1 - d % 2)]
+        mk("stale-counter-every-entry-point", st)
+        fail_save = "rt " + vtxt(self.nest(26))
+        fail_rest = "rv " + (b"({({1,2,3,}),({" + b"1," * 20000 + b"}),})").hex()
+        nat = []
+        for f in (fail_save, fail_rest):
+            nat += [f, "rx %s %s" % (ok_val, ok_text.hex()), f, "rt " + ok_val,
+                    "set i1 %s %s i4 m{i1:a[i2]}" % (ok_val, ok_val), f, "so 0", "set i9 i9 i9 i9 i9", f, "ro 1", f, "ro 0",
+                    f, "wf " + (b"#/c16/obj.c\nva " + ok_text + b"\nvc ([1:({2,}),])\n").hex(), f, "ro 1", f,
+                    "set i1 %s i2 i3 i4" % vtxt(self.nest(26)), "so 0", "ro 1"]
+        mk("after-a-failed-operation", nat)
         mk("crash-points-nofile", ["set i1 s61 a[i1,i2] i7 m{i1:i2}", "cp 1", "cf 1"])
         mk("crash-points-zeros", ["set i0 i0 i0 i0 i0", "so 1", "set i1 i0 i0 i0 i0", "cp 0", "cf 0", "cp 1"])
         return B
@@ -888,8 +1033,10 @@ class C16(Prop):
 
     def gen_case(self, rng, cid, tier):
         kind = rng.weighted([("rt", 8), ("malformed", 8), ("trunc-all", 1), ("object", 3), ("crash", 1), ("renamed", 2),
-                             ("many", 1), ("names", 1), ("tree", 5), ("mapgrow", 3)])
+                             ("many", 1), ("names", 1), ("tree", 5), ("mapgrow", 3), ("stale", 3)])
         lines = ["rm"]
+        if kind == "stale":
+            return E.Case(cid, lines + self.stale_lines(rng), {"origin": "generated", "kind": kind})
         if kind == "mapgrow":
             for _ in range(rng.range(2, 5)):
                 lines += self.grow_lines(rng)
@@ -974,6 +1121,11 @@ class C16(Prop):
             z = rng.below(2)
             lines.append("cp %d" % z)
             lines.append("cf %d" % z)
+            if rng.chance(1, 2):
+                if rng.chance(1, 3):        # a save file of several stdio blocks
+                    vals[rng.range(1, 4)] = ("a", [("s", [rng.range(0x61, 0x7a)] * rng.range(1500, 6000)), ("i", 5)] * rng.range(1, 3))
+                    lines.append("set " + " ".join(vtxt(v) for v in vals))
+                lines.append("cl %d" % z)
         return E.Case(cid, lines, {"origin": "generated", "kind": kind})
 
     def generate(self, rng, n, tier):
